@@ -3,6 +3,7 @@
 #pragma once
 #include "common.hh"
 #include <rapidcheck.h>
+#include <chrono>
 
 namespace target {
 const std::vector<vf::OpInfo> &optable();
@@ -74,7 +75,18 @@ inline int generic_main(int argc, char **argv) {
   auto opg = gen_op(id);
   auto progg = rc::gen::scale(scale, rc::gen::container<Program>(opg));
   std::string failmsg;
+  // optional wall-clock budget of this worker (thorough tier): once it is used up the remaining cases are not run
+  // (counted, reported as not explored - never as a violation); statistics are flushed periodically so that a worker
+  // killed by the driver's timeout still reports what it covered
+  const double budget = atof(getenv_s("VF_TIME_BUDGET", "0").c_str());
+  const auto t_start = std::chrono::steady_clock::now();
+  uint64_t since_flush = 0;
   bool ok = rc::check(id, [&]() {
+    if (budget > 0 && !st.frozen && std::chrono::duration<double>(std::chrono::steady_clock::now() - t_start).count() > budget) {
+      ++st.counters["cases_not_run_after_time_budget"];
+      return;
+    }
+    if (!st.frozen && ++since_flush >= 200) { since_flush = 0; st.write(out, false, ""); }
     Program p = *progg;
     write_file(inflight, "#! id " + id + "\n" + program_to_text(p, target::optable()));
     CaseResult r = target::run_case(id, p, st);
